@@ -18,10 +18,10 @@ class KeyPool:
     """keys generated once per run"""
 
     def __init__(self, ctx, oracle, tier, want=None):
-        spec = [("oct32", "oct", 32), ("rsa2048", "rsa", 2048), ("p256", "ec", "P-256"), ("ed25519", "okp", "ED25519")]
+        spec = [("oct32", "oct", 32), ("rsa2048", "rsa", 2048), ("p256", "ec", "P-256"), ("ed25519", "okp", "ED25519"), ("ed448", "okp", "ED448")]
         if tier == "thorough":
             spec += [("oct64", "oct", 64), ("rsapss2048", "rsapss", 2048), ("p384", "ec", "P-384"), ("p521", "ec", "P-521"),
-                     ("k256", "ec", "secp256k1"), ("ed448", "okp", "ED448")]
+                     ("k256", "ec", "secp256k1")]
         if want:
             spec = [s for s in spec if s[0] in want] + [w for w in want if isinstance(w, tuple)]
         self.keys = {name: K.gen_key(kind, param, ctx.scratch) for name, kind, param in spec}
@@ -1443,10 +1443,16 @@ def jwk_import_suite(world, pool, tier, rng):
                         extra.update(foreign)
                         extra["zz-unknown"] = {"deep": [1, 2, {"x": None}]}
                     variants.append((private, alg, pad, extra))
-        for private, alg, pad, extra in variants:
+        variants = [v + (0,) for v in variants] + [v + (z,) for v in variants[:4] for z in (1, 2) if key.kind not in ("oct", "okp")]
+        for private, alg, pad, extra, zeropad in variants:
             jwk = key.jwk(private=private, alg=alg, extra=extra, pad=pad)
             if key.kind == "rsa" and not pad:
                 continue
+            if zeropad:
+                # every integer member with one or two extra leading zero octets (what e.g. Java's BigInteger emits)
+                for mname in ("n", "e", "d", "p", "q", "dp", "dq", "qi", "x", "y"):
+                    if key.kind != "okp" and isinstance(jwk.get(mname), str):
+                        jwk[mname] = K.b64u(b"\x00" * zeropad + K.b64u_dec(jwk[mname]))
             world.op("jwks %d del" % s, cmp=False, tag="cfg")
             world.load_doc(s, json.dumps(jwk).encode(), "strn")
             ops = 0
@@ -1458,7 +1464,7 @@ def jwk_import_suite(world, pool, tier, rng):
                     "use": {"sig": 1, "enc": 2}.get(extra.get("use"), 0), "ops": ops,
                     "crv": hx(key.crv.encode()) if key.kind in ("ec", "okp") else "NULL", "pem": 0 if key.kind == "oct" else 1,
                     "oct": hx(key.k) if key.kind == "oct" else "NULL"}
-            metas.append((len(world.ops), {"kind": "import", "key": str(spec), "private": private, "alg": alg, "pad": pad,
+            metas.append((len(world.ops), {"kind": "import", "key": str(spec), "private": private, "alg": alg, "pad": pad, "zeropad": zeropad,
                                            "extra": sorted(extra), "want": want}))
             world.op("jwks %d item 0" % s, tag="item")
             if key.kind != "oct":
